@@ -212,7 +212,9 @@ def gen_case(rng, tier):
     nmax = 5 if tier == "quick" else 7
     r = rng.random()
     abs_out = r < .14
-    gamma = "1" if rng.random() < .2 else None
+    # boundary discount rates: 1, 0 (myopic; falsy in Python), 2^-20; else gen_mdp's 1/2..19/20
+    rg = rng.random()
+    gamma = "1" if rg < .2 else "0" if rg < .32 else "1/1048576" if rg < .38 else None
     qv = None
     uniform = False
     if rng.random() < .25:
@@ -293,6 +295,8 @@ def gen_case(rng, tier):
     akind = rng.choice(["int", "str", "str", "tup", "fd", "mixed", "mixed"])
     case = {"mdp": m, "slabels": gen_labels(rng, n, skind), "alabels": gen_labels(rng, nA, akind),
             "skind": skind, "akind": akind, "abs_out": abs_out, "boundary": m_boundary,
+            # pass the discount rate as a Python int (0 / 1) instead of a float (0.0 / 1.0)
+            "gamma_int": m["gamma"] in ("0", "1") and rng.random() < .5,
             "explicit_states": None, "explicit_actions": None, "qv": qv,
             "cutoffs": sorted(set(rng.randint(0, n + 1) for _ in range(rng.randint(1, 3)))),
             "vi": {"max_iterations": 60, "max_residual": "1/100000"}}
@@ -813,6 +817,8 @@ def run(ctx):
              "states_sortable": bool(v[1][2]), "actions_sortable": bool(v[1][5]),
              "dead_end": any(len(a) == 0 for a in case["mdp"]["actions"]),
              "boundary_prob": case.get("boundary") == "prob", "boundary_reward": case.get("boundary") == "reward",
+             "gamma_zero": F(case["mdp"]["gamma"]) == 0, "gamma_tiny": 0 < F(case["mdp"]["gamma"]) < F(1, 1000),
+             "gamma_passed_as_int": bool(case.get("gamma_int")),
              "repeated_action": any(len(set(a)) != len(a) for a in case["mdp"]["actions"]),
              "skind_" + case["skind"]: True, "akind_" + case["akind"]: True}
         f.update({k: x for k, x in gen_mdp.features(case["mdp"]).items() if isinstance(x, bool)})
@@ -823,7 +829,7 @@ def run(ctx):
         "distinct_nontrivial": len(distinct),
         "rule": "functional MDPs from harness/gen_mdp.py (1..%d states, 1..3 actions, k/8 probabilities, zero-probability entries in "
                 "next-state and initial distributions, rewards on zero-probability successors, explicit/implicit absorbing states, near-absorbing states (self-loop probability 1 - 2^-k, k in {10,20,30}, or reward +-2^-30 on a certain self-loop), dead ends, actions listed twice, "
-                "gamma in {1/2..19/20, 1}) relabelled with ints / strings / int tuples / (int,str) tuples / frozendicts / nested mixed tuples "
+                "gamma in {1/2..19/20, 1, 0, 2^-20}, 0 and 1 passed as int or float) relabelled with ints / strings / int tuples / (int,str) tuples / frozendicts / nested mixed tuples "
                 "(sortable and unsortable sets), explicit (shuffled, with unreachable states) or inferred state and action lists, 1-3 "
                 "max_states cut-offs in 0..n+1, constant/deterministic QuickMDP argument variants; %s; distinct = structural hash of (MDP, labels, "
                 "explicit lists); every case is non-trivial (>= 1 state with a transition row or a dead end)"
